@@ -314,8 +314,9 @@ func (p *Parser) loadPackagesWithConfig(baseCfg *packages.Config, patterns ...st
 }
 
 // trailingCommentGroups returns the comment groups of f which start on a line
-// after some code ("x int // like this").  Such a comment documents what
-// precedes it; it is never the doc comment of the next declaration.  The second
+// after some code ("x int // like this") or end on a line before some code
+// ("/* like this */ x int").  Such a comment documents what is on its own
+// line; it is never the doc comment of the next declaration.  The second
 // result holds the lines of f which hold code.
 func trailingCommentGroups(fset *token.FileSet, f *ast.File) (map[*ast.CommentGroup]bool, map[fileLine]token.Pos) {
 	// The last position of any code on each line.
@@ -357,6 +358,11 @@ func trailingCommentGroups(fset *token.FileSet, f *ast.File) (map[*ast.CommentGr
 	trailing := map[*ast.CommentGroup]bool{}
 	for _, c := range f.Comments {
 		if end, ok := codeEnd[lineOf(c.Pos())]; ok && end < c.Pos() {
+			trailing[c] = true
+		}
+		if end, ok := codeEnd[lineOf(c.End())]; ok && end > c.End() {
+			// "/* like this */ x int": it does not end on a line of its own
+			// either.
 			trailing[c] = true
 		}
 	}
